@@ -159,6 +159,19 @@ class ScanOracles(LinOracles):
                     eq = True
                 else:
                     ia, ib = a.info.get("at"), b.info.get("at")
+                    sent = [x for x in (a, b) if x.info.get("sentinel")]
+                    if len(sent) == 1 and (ia is not None or ib is not None):
+                        # a window compared with the all-A p-mer (Kmer::empty()): whether the window is poly-A is an oracle; two poly-A
+                        # windows are the same p-mer, so their scores are equal — nothing else is known about the score of poly-A
+                        i_ = ia if ia is not None else ib
+                        others = [int(k_[4:-len("==polyA")]) for k_, v_ in self.memo.items() if k_.startswith("pmer") and k_.endswith("==polyA") and v_ is True]
+                        forced = any(self.decide("Eq", {"s%d" % min(i_, j): 1, "s%d" % max(i_, j): -1}, 0) is False for j in others if j != i_)
+                        eq = False if forced else self.choose("pmer%d==polyA" % i_, (False, True))
+                        if eq:
+                            for j in others:
+                                if j != i_:
+                                    self.refine("Eq", {"s%d" % min(i_, j): 1, "s%d" % max(i_, j): -1}, 0, True)
+                        return mkbool(eq if name == "eq" else not eq)
                     if ia is None or ib is None:
                         raise Undecided("equality of p-mers that are not windows of the sequence")
                     lo, hi = min(ia, ib), max(ia, ib)
